@@ -435,6 +435,8 @@ class Respondent(httping.Parsent):
                     leaderParser.close()
                     break
                 (yield None)
+            # need new line parser for status line following 100 continue
+            lineParser = httping.parseLine(raw=self.msg, eols=(CRLF, LF), kind="status line")
 
         self.code = self.status = status
         self.reason = reason.strip()
